@@ -180,7 +180,8 @@ Example C06_demo_not_invented :
                   x_get p o1 = Some (XScalar s false x) /\ x_get p o2 = Some (XScalar s false x).
 Proof. exact demo_not_invented. Qed.
 
-(* ---------------- schema soundness: NOT proved; intended statement and one computed instance ---------------- *)
+(* ---------------- schema soundness: the intended statement and one computed instance; it is REFUTED, and proved outside a
+   decidable class, in Properties/C06_schema.v ---------------- *)
 Definition C06_schema_sound_statement : Prop := schema_sound_statement.
 
 Example C06_demo_schema :
